@@ -177,7 +177,9 @@ def b_build(vnames, nnames, body_names, fn_names, main_dup_init):
     ifn = ir.Node("", "If", [c], [ir.AttrGraph("then_branch", body)], name="if")
     inits = [w0]
     if main_dup_init:
-        inits.append(ir.Value(name="dup", const_value=ir.Tensor(np.array([3.0], dtype=np.float32))))
+        # a second main-graph initializer: "dup", or (given as a string) a name from the colliding alphabet
+        second = main_dup_init if isinstance(main_dup_init, str) else "dup"
+        inits.append(ir.Value(name=second, const_value=ir.Tensor(np.array([3.0], dtype=np.float32))))
     g = ir.Graph([i0v, c], [n1.outputs[0], ifn.outputs[0]], nodes=[n0, ifn, n1], initializers=inits, name="main", opset_imports={"": 20, "local": 1})
     # names are applied after construction (the constructor names unnamed inputs itself)
     i0v.name = i0
@@ -375,11 +377,24 @@ def _b_work(task):
         for nnames in node_opts:
             for body_names in body_opts:
                 for fn_names in (fn_opts if tier == "thorough" or nnames == node_opts[0] else fn_opts[:2]):
-                    try:
-                        model = b_build(vnames, nnames, body_names, fn_names, main_dup_init=(vnames[2] == "a_1"))
-                    except Exception:  # noqa: BLE001  the combination cannot be constructed (e.g. initializer name clash)
-                        continue
-                    n += 1
+                    variants = [vnames[2] == "a_1"]
+                    if nnames == node_opts[0] and body_names == body_opts[0]:
+                        # a second initializer whose name is what the pass would generate for a clash on the first one
+                        variants += [x for x in ("a_1", "v_1", "w0_1", "a") if x != vnames[1]]
+                    for dup in variants:
+                        try:
+                            model = b_build(vnames, nnames, body_names, fn_names, main_dup_init=dup)
+                        except Exception:  # noqa: BLE001  the combination cannot be constructed (e.g. initializer name clash)
+                            continue
+                        n += 1
+                        for clause, detail in b_check(model):
+                            key = f"namefix|{clause}"
+                            if clause.startswith("already_unique_") and isinstance(detail, tuple):
+                                import re
+
+                                key += "|generated_shape" if re.fullmatch(r"(v|node|.*_[0-9]+)", str(detail[0])) else "|other_name"
+                            found.setdefault(key, {"part": "NameFixPass", "names": [vnames, nnames, body_names, fn_names, dup], "clause": clause, "detail": detail})
+                    continue
                     for clause, detail in b_check(model):
                         key = f"namefix|{clause}"
                         if clause.startswith("already_unique_") and isinstance(detail, tuple):
